@@ -29,7 +29,8 @@ DERIVES = ['ctor_Bits', 'ctor_BitArray', 'ctor_ConstBitStream', 'ctor_BitStream'
            'copy_method', 'slice_all', 'slice_part', 'slice_step', 'add', 'radd_str', 'mul', 'invert', 'and_self', 'or', 'xor', 'lshift', 'rshift',
            'join', 'join_empty', 'fromstring', 'literal', 'literal_other_cls', 'pack_bits', 'pack_kw', 'pack_token_kw', 'dtype_build', 'dtype_parse',
            'read', 'readlist', 'cut', 'split', 'array_from', 'tobitarray', 'tobitarray_roundtrip', 'unpack_bits', 'deepcopy', 'auto_from_bitarray',
-           'and_same']
+           'and_same', 'add_empty_left', 'add_empty_right', 'add_empty_left_literal', 'mul_one', 'lshift0', 'rshift0', 'and_ones', 'cut_whole',
+           'split_nomatch', 'radd_empty_str', 'join_single_self_empty']
 ARRAY_DERIVES = ['arr_slice', 'arr_copy', 'arr_from_arr', 'arr_slice_step', 'arr_astype', 'arr_data_copy', 'arr_extend_into_new']
 SOURCE_KINDS = ['bytearray', 'memoryview', 'array', 'bitarray', 'bytesio', 'list']
 POKES = ['append', 'prepend', 'insert', 'overwrite', 'invert', 'set', 'reverse', 'rol', 'ror', 'byteswap', 'replace', 'clear', '__setitem__', '__delitem__',
@@ -197,6 +198,30 @@ class World:
             new = x[::(-1 if a % 2 else 2)]
         elif how == 'add':
             new = x + y
+        elif how == 'add_empty_left':
+            new = cls_of(CLASSES[a % 4])() + x
+        elif how == 'add_empty_right':
+            new = x + cls_of(CLASSES[a % 4])()
+        elif how == 'add_empty_left_literal':
+            new = cls_of(CLASSES[a % 4])() + ('0b' + xb if xb else '')
+        elif how == 'radd_empty_str':
+            new = '' + x
+        elif how == 'mul_one':
+            new = x * 1 if a % 2 else 1 * x
+        elif how == 'lshift0':
+            new = (x << 0) if n else x[:]
+        elif how == 'rshift0':
+            new = (x >> 0) if n else x[:]
+        elif how == 'and_ones':
+            new = x & cls_of(CLASSES[a % 4])(bin='1' * n)
+        elif how == 'cut_whole':
+            items = list(x.cut(n + (a % 3))) if n else []
+            new = items[0] if items else x[:]
+        elif how == 'split_nomatch':
+            items = list(x.split(mk('Bits', xb + '1')))
+            new = items[0]
+        elif how == 'join_single_self_empty':
+            new = cls_of(CLASSES[a % 4])().join([x, cls_of(CLASSES[b % 4])()])
         elif how == 'radd_str':
             new = '0b1' + x
         elif how == 'mul':
